@@ -41,6 +41,7 @@ class Reads:
         self.abs = {}           # (i, field) -> consts
         self.rel = {}           # (k, field) -> consts
         self.unknown_gtxns = set()
+        self.cminus = {}        # (n, field) -> consts : member n - GroupIndex
         self.size_consts = set()
         self.uses_size = False
         self.uses_creator = False
@@ -66,6 +67,8 @@ class Reads:
                     self.abs_read_pcs[k] = tgt[1]
                 elif tgt[0] == "self":
                     self.self_fields.setdefault(ins[1], set()).update(self._near(k))
+                elif tgt[0] == "cminus":
+                    self.cminus.setdefault((tgt[1], ins[1]), set()).update(self._near(k))
                 else:
                     self.rel.setdefault((tgt[1], ins[1]), set()).update(self._near(k))
             elif op == "global" and ins[1] == "GroupSize":
@@ -95,6 +98,8 @@ class Reads:
                 return ("rel", vb if p[k - 1][0] == "+" else -vb)
             if b == ("txn", "GroupIndex") and va is not None and p[k - 1][0] == "+":
                 return ("rel", va)
+            if b == ("txn", "GroupIndex") and va is not None and p[k - 1][0] == "-":
+                return ("cminus", va)
         return None
 
     def max_abs(self):
@@ -160,6 +165,10 @@ def size_index_pairs(reads, mode="reps"):
         v = abs(k) + 1
         if v <= 16:
             sizes.add(v)
+    for (n, _f) in reads.cminus:
+        for v in (n + 1, n + 2):
+            if v <= 16:
+                sizes.add(v)
     pairs = []
     for s in sorted(sizes):
         idx = {0, s - 1}
@@ -171,6 +180,10 @@ def size_index_pairs(reads, mode="reps"):
                 idx.add(i + 1)
         for (k, _f) in reads.rel:
             for j in (-k, s - 1 - k, 1):
+                if 0 <= j < s:
+                    idx.add(j)
+        for (n, _f) in reads.cminus:
+            for j in (n, n - 1, 0, 1):
                 if 0 <= j < s:
                     idx.add(j)
         pairs.extend((s, j) for j in sorted(idx))
@@ -194,6 +207,9 @@ def position_dims(reads, s, own):
     for (k, f), c in reads.rel.items():
         if f != "GroupIndex":
             add(own + k, f, c)
+    for (n, f), c in reads.cminus.items():
+        if f != "GroupIndex" and n - own >= 0:
+            add(n - own, f, c)
     for f in reads.unknown_gtxns:
         for p in range(s):
             add(p, f, set())
